@@ -36,6 +36,7 @@ type Config struct {
 	Verbose   bool
 	RepoPrefix string // import path prefix of the repository under test
 	Tier       int    // 0 quick, 1 thorough
+	MaxWallSec int    // exploration budget; exceeding it is reported as inconclusive
 }
 
 type Program struct {
@@ -192,6 +193,40 @@ func (p *Program) ExploreAll(pkgPath string, names []string) []*HarnessResult {
 	cond := sync.NewCond(&mu)
 	active := 0
 	var wg sync.WaitGroup
+	stopProgress := make(chan struct{})
+	defer close(stopProgress)
+	tStart := time.Now()
+	go func() {
+		tk := time.NewTicker(10 * time.Second)
+		defer tk.Stop()
+		for {
+			select {
+			case <-stopProgress:
+				return
+			case <-tk.C:
+				mu.Lock()
+				tot, comp := 0, 0
+				for _, r := range results {
+					tot += r.Paths
+					comp += r.Completed
+				}
+				expired := p.cfg.MaxWallSec > 0 && time.Since(tStart).Seconds() > float64(p.cfg.MaxWallSec)
+				if expired {
+					for _, r := range results {
+						if r.Paths > 0 && !r.Truncated {
+							r.Truncated = true
+						}
+					}
+					work = nil
+				}
+				if p.cfg.Verbose || expired {
+					fmt.Fprintf(os.Stderr, "gosym: progress %.0fs: paths=%d completed=%d queued=%d active=%d expired=%v\n", time.Since(tStart).Seconds(), tot, comp, len(work), active, expired)
+				}
+				mu.Unlock()
+				cond.Broadcast()
+			}
+		}
+	}()
 	for w := 0; w < p.cfg.Workers; w++ {
 		wg.Add(1)
 		go func(w int) {
@@ -203,7 +238,7 @@ func (p *Program) ExploreAll(pkgPath string, names []string) []*HarnessResult {
 				mu.Unlock()
 				return
 			}
-			defer sv.close()
+			defer func() { sv.close() }()
 			for {
 				mu.Lock()
 				for len(work) == 0 && active > 0 {
@@ -245,6 +280,20 @@ func (p *Program) ExploreAll(pkgPath string, names []string) []*HarnessResult {
 					mu.Unlock()
 					cond.Broadcast()
 					continue
+				}
+				if sv.dead || sv.broken {
+					sv.close()
+					nsv, err := newSolver(p.cfg.Solver, p.cfg.TimeoutMs)
+					if err != nil {
+						mu.Lock()
+						res.SolverFail["cannot restart solver: "+err.Error()]++
+						active--
+						mu.Unlock()
+						cond.Broadcast()
+						return
+					}
+					nsv.stats = sv.stats
+					sv = nsv
 				}
 				before := sv.stats
 				pr, alts := p.runPath(sv, pkgPath, fns[it.h], it.prefix, want)
@@ -330,7 +379,6 @@ func (p *Program) runPath(sv *solver, pkgPath string, fn *ssa.Function, prefix [
 	ps.prefix = prefix
 	ps.wantModel = wantModel
 	pr = &pathResult{Harness: fn.Name(), Status: "ok"}
-	sv.reset()
 
 	defer func() {
 		if r := recover(); r != nil {
@@ -376,6 +424,7 @@ func (p *Program) runPath(sv *solver, pkgPath string, fn *ssa.Function, prefix [
 							pr.Inputs = nil
 						}
 					}()
+					i.defineObserved()
 					if sv.checkSat() == "sat" {
 						pr.Inputs = i.model()
 						pr.Observes = i.observedValues()
@@ -386,6 +435,7 @@ func (p *Program) runPath(sv *solver, pkgPath string, fn *ssa.Function, prefix [
 		}
 	}()
 
+	sv.reset()
 	i.runInit(p.byPath[pkgPath])
 	i.sched.noSpawn = false
 	call(i, nil, token.NoPos, fn, nil)
